@@ -1,3 +1,5 @@
 SPECIFICATION TSpec
+CONSTANTS
+  MaxU64 = 1000
 INVARIANTS Report InvSegments SnapshotRoundTrip
 CHECK_DEADLOCK FALSE
